@@ -303,7 +303,7 @@ def doUpdate (c : Cfg) (s : BState) (key val : Bytes) (exp : Nat) (fs : List Fau
       | .found v m => (.condFailed (max rev m) (some (key, v, m)), s)
       | .notFound _ => (.condFailed rev none, s)
     | r => (.error (commitErr r), s)
-  else if rev < exp then
+  else if rev ≤ exp then
     -- revision drift: the dealt revision is reported as invalid, the client gets an error
     let w : WEvent := { rev := rev, prevRev := exp, valid := false, verb := .put, key := key, val := val }
     (.error .drift, sequence s w)
@@ -334,7 +334,7 @@ def doDelete (c : Cfg) (s : BState) (key : Bytes) (exp : Nat) (fs : List Fault) 
     let rev := s.dealt + 1
     let s := { s with dealt := rev }
     let inval : WEvent := { rev := rev, prevRev := modRev, valid := false, verb := .delete, key := key, val := oldVal }
-    if exp > 0 && rev < exp then (.error .drift, sequence s inval)
+    if exp > 0 && rev ≤ exp then (.error .drift, sequence s inval)
     else if exp > 0 && exp != modRev then
       let s := sequence s inval
       match bget c s.store key 0 with
